@@ -19,7 +19,9 @@
    code as it is violates it (a failed fchownat after symlinkat: the link
    exists, the result says nothing was created).  c09_exact_flat is the
    variant for plans over files and links that also covers the unrepaired
-   code when the plan creates no link.
+   code when the plan creates no link.  c09_describe_is_scan and
+   c09_scan_agrees tie [describe] to the scan specification and scan model of
+   C12: a scan after the transition agrees with the results.
 
    The check-then-act windows marked RACE: in the source are outside the
    model. *)
@@ -27,7 +29,8 @@ From Coq Require Import List Bool String NArith.
 Import ListNotations.
 From Mv Require Import Model.Entry Model.Fs Model.FsExt Model.Transition Model.TransitionCheck
      Proof.FsFacts Proof.TransPrims Proof.TransFrames Proof.TransFuns Proof.TransitionC09
-     Proof.TransitionC09Dir.
+     Proof.TransitionC09Dir Proof.TransitionC09Scan.
+From Mv Require Model.Scan Model.ScanSpec.
 Open Scope string_scope.
 Open Scope list_scope.
 
@@ -106,6 +109,48 @@ Theorem c09_exact :
               (tfs (fst (transition norm E rn ch slm dfm ddm own fixed fs0 stg plan)))
               (snd (transition norm E rn ch slm dfm ddm own fixed fs0 stg plan)) = true.
 Proof. exact c09_exact_thm. Qed.
+
+(* THE LINK TO THE SCAN (C12).  [describe] is not an ad-hoc notion: for a tree
+   a fault-free scan reports without problems ([scannable]: one device, valid
+   UTF-8 listable names, file sizes and modification times a scan accepts; the
+   listings sorted), whatever entry the C12 specification [ScanSpec.describes]
+   relates to a node under no ignores and no failures (portable permissions on
+   a filesystem that preserves executability, the transition's symbolic-link
+   mode), its synchronizable part (Entry.synchronizable: untracked and
+   problematic content dropped) is exactly [describe] of that node. *)
+Theorem c09_describe_is_scan :
+  forall (H : string -> string) (ign : path -> bool -> Scan.ival)
+         (flt : path -> Scan.fop -> outcome) (slm : slmode) (fix16 : bool),
+    (forall p d, fst (ign p d) = Scan.INominal) -> (forall p op, flt p op = Ok) ->
+    forall (rd : N) (x : node) (p : path) (oe : oentry),
+      scannable rd x -> tsorted x ->
+      ScanSpec.describes H ign flt (cfg_of slm fix16) rd p false x oe ->
+      synchronizable oe = describe H (norm_of fix16) Scan.utf8_valid slm p x.
+Proof. exact describe_is_scan. Qed.
+
+(* A SCAN TAKEN IMMEDIATELY AFTER THE TRANSITION AGREES WITH THE RESULTS.
+   Under the hypotheses of c09_exact (with the scan model's link normaliser
+   and UTF-8 test as the outside world): if the scan model of C12
+   (Model/Scan.v [scan_full], proved correct against [ScanSpec.describes] in
+   Props/C12.v) runs without ignores and failures on the synchronization root
+   as the transition left it and returns a snapshot, then for every i the
+   synchronizable part of the snapshot at plan[i].path is results[i]. *)
+Theorem c09_scan_agrees :
+  forall (H : string -> string) (ign : path -> bool -> Scan.ival)
+         (flt : path -> Scan.fop -> outcome) (slm : slmode) (fix16 : bool)
+         (E : env) (rn : name) (ch : cache) (dfm ddm : N) (own fixed : bool),
+    (forall p d, fst (ign p d) = Scan.INominal) -> (forall p op, flt p op = Ok) ->
+    forall (fs0 : node) (stg : store) (plan : list change),
+    modes_ok dfm -> fixed = true \/ own = false -> rn <> "." -> skip Scan.utf8_valid rn = false ->
+    plan_ok Scan.utf8_valid plan -> paths_disjoint (map cpath plan) = true ->
+    tsorted fs0 -> store_ok H stg ->
+    pre_described H (norm_of fix16) Scan.utf8_valid slm rn fs0 plan = true ->
+    let '(s', rs) := transition (norm_of fix16) E rn ch slm dfm ddm own fixed fs0 stg plan in
+    forall snap c ic,
+      scan_ready (get [rn] (tfs s')) ->
+      Scan.scan_full H ign flt (cfg_of slm fix16) (get [rn] (tfs s')) = Scan.SOk snap c ic ->
+      Forall2 (fun chg r => at_path (synchronizable (Scan.s_content snap)) (cpath chg) = r) plan rs.
+Proof. exact c09_scan_agrees_thm. Qed.
 
 (* The variant for plans whose old and new entries are files and
    symbolic links (creations, deletions, swaps, file <-> link replacements;
@@ -214,12 +259,29 @@ Example c09_directories_example :
     (snd (transition (fun _ t => Some t) y_env "root" y_cache SLRaw 420 448 false false y_fs y_store y_plan)) = true.
 Proof. vm_compute. repeat split. Qed.
 
+(* ... and the scan model of C12, run on the root as that transition left it,
+   reports at the two paths exactly the two results (the premises of
+   c09_scan_agrees hold there: the tree is well formed for a scan) *)
+Example c09_scan_agrees_example :
+  let out := transition (norm_of false) y_env "root" y_cache SLRaw 420 448 false false y_fs y_store y_plan in
+  let root := get ["root"] (tfs (fst out)) in
+  match root with Some x => ScanSpec.scan_wf x = true | None => False end /\
+  match Scan.scan_full (fun d => d) (fun _ _ => (Scan.INominal, true)) (fun _ _ => Ok)
+                       (cfg_of SLRaw false) root with
+  | Scan.SOk s _ _ =>
+    map (fun c => at_path (synchronizable (Scan.s_content s)) (cpath c)) y_plan = snd out
+  | Scan.SErr => False
+  end.
+Proof. vm_compute. split; reflexivity. Qed.
+
 Print Assumptions c09_results_len.
 Print Assumptions c09_check_sound.
 Print Assumptions c09_cancel.
 Print Assumptions c09_cancel_start.
 Print Assumptions c09_missing.
 Print Assumptions c09_exact.
+Print Assumptions c09_describe_is_scan.
+Print Assumptions c09_scan_agrees.
 Print Assumptions c09_exact_flat.
 Print Assumptions c09_exact_refuted_unfixed.
 Print Assumptions c09_exact_fixed_witness.
